@@ -676,6 +676,10 @@ class RegionMonitor(object):
         res.check('region_stores_model_result', same,
                   'pin_temps[:, 3:] is not the model result for this step\'s '
                   'pin powers', dict(self.key, mech='wiring'))
+        if not hasattr(self, 'stored'):
+            self.stored = {}
+        self.stored[id(reg)] = np.array(last['result'], dtype=float,
+                                        copy=True)
         hp = getattr(self.mon, 'user_htc', {}).get(id(reg))
         if hp is not None:
             # the film coefficient handed to the model is the one the
@@ -1034,6 +1038,23 @@ def run_sweep(case, res):
             prng = np.random.default_rng(case['seed'] + [77])
 
             def after(i):
+                # at the end of the reactor step every assembly still holds
+                # its OWN pin temperatures of this step (and its own id)
+                for a in r.assemblies:
+                    if not a.has_rodded or not hasattr(a.rodded, 'pin_model'):
+                        continue
+                    reg = a.active_region
+                    st = getattr(rm, 'stored', {}).get(id(reg))
+                    if st is None or not reg.is_rodded:
+                        continue
+                    ok = bool(np.array_equal(np.asarray(
+                        reg.pin_temps[:, 3:], dtype=float), st))
+                    res.check('pin_record_is_own_at_end_of_step', ok and bool(
+                        np.all(reg.pin_temps[:, 0] == a.id)),
+                        'after the reactor step assembly %d no longer holds '
+                        'its own pin temperatures of this step (or they '
+                        'carry another assembly\'s id)' % a.id,
+                        dict(key0, mech='pin_record_shared'))
                 if i in probe_at:
                     done = 0
                     for a in r.assemblies:
